@@ -48,7 +48,10 @@ func VerifC01Pairing() {
 
 	names := []string{verifRPAddr(1), verifRPAddr(4), verifRPAddr(5), verifRPAddr(2), verifRPAddr(3)}
 	// provider 1 serves the plan's combination, provider 2 the admin policy's, provider 3 both or neither, 4 and 5 the base APIs
-	both := verif_nondet_bool("provider3.servesBoth")
+	// provider 3: only the base APIs / both combinations / the plan's combination in full and, on a second endpoint, the
+	// admin policy's API interface and add-on without its extension
+	p3 := verif_nondet_range("provider3.services", 0, 2)
+	both := p3 == 1
 	eps := [][]epochstoragetypes.Endpoint{
 		{{IPPORT: "a:1", Geolocation: 1, ApiInterfaces: []string{"rest"}, Addons: []string{"debug"}, Extensions: []string{"archive"}}},
 		{{IPPORT: "b:1", Geolocation: 1, ApiInterfaces: []string{adminReq.Collection.ApiInterface}, Addons: []string{adminReq.Collection.AddOn}, Extensions: adminReq.Extensions}},
@@ -59,6 +62,12 @@ func VerifC01Pairing() {
 	if both {
 		eps[2][0].Addons = []string{"debug", "trace"}
 		eps[2][0].Extensions = []string{"archive"}
+	}
+	if p3 == 2 {
+		eps[2] = []epochstoragetypes.Endpoint{
+			{IPPORT: "c:1", Geolocation: 1, ApiInterfaces: []string{"rest"}, Addons: []string{"debug"}, Extensions: []string{"archive"}},
+			{IPPORT: "c:2", Geolocation: 1, ApiInterfaces: []string{adminReq.Collection.ApiInterface}, Addons: []string{adminReq.Collection.AddOn}},
+		}
 	}
 	verifC02Entries = nil
 	for i := 0; i < len(names); i++ {
